@@ -207,4 +207,18 @@ PROPS.update({
                         "NOT decided deductively (bounded native harness only): the bracketed IPv6 round trip, URI.__init__/uriRegEx, __str__, __hash__, PYROMETA, the proxy state and serializer paths",
                         "string obligations are decided by cvc5 where z3 gives up; lemma hints are proved before they are used"],
     },
+    "C20": {
+        "modules": ["specs.socket_model", "specs.pystruct", "specs.seqdict", "specs.opaque", "specs.daemon_model", "specs.strings", "contracts.gateway"],
+        "contracts": ["Pyro5.utils.httpgateway.process_pyro_request"],
+        "harness": "replay/c20.py",
+        "explanation": "process_pyro_request: every piece of Pyro traffic (name server connection, lookup, metadata fetch, remote attribute fetch, remote call) happens only "
+                       "on paths where the configured gateway key was presented (header or $key, as a str whose utf-8 bytes equal the key) and the object name matches the "
+                       "expose pattern; the name looked up and the member used are the ones named in the path; the call goes through the one proxy made for the looked-up "
+                       "URI and passes exactly the query parameters (without $key when a key is configured); at most one lookup and one call per request; every refusal "
+                       "(403/404/405) happens without any Pyro traffic; exactly one HTTP status line on every path; the proxy is released.",
+        "assumptions": ["WSGI environ/start_response, the name-server proxy, client.Proxy (incl. that names starting with '_' would be resolved on the local proxy object), "
+                        "JSON and a user supplied expose pattern are modelled / uninterpreted (contracts/gateway.py)",
+                        "the split regex (.+)/(.+) as specified; pyro_app's routing (method, /pyro/ prefix) and singlyfy_parameters are covered by the native harness only",
+                        "fidelity of JSON and of the remote call itself (C01/C03)"],
+    },
 })
